@@ -15,8 +15,9 @@
 (* reciprocal operation R* = R^-T acts as X -> R* X exactly, whatever the    *)
 (* mesh numbers (no assumption that R* maps the grid into itself).           *)
 (*                                                                           *)
-(* REQUIREMENT side (Req...): from  the definition of the requested grid and    *)
-(* the group action only.  MACHINE side: one action per step of the code;    *)
+(* REQUIREMENT side (operators Req...): from the definition of the requested *)
+(* grid and the group action only.                                           *)
+(* MACHINE side: one action per step of the code;                            *)
 (* the machine describes the REPAIRED code (Variant = "repaired") or the     *)
 (* pinned code (Variant = "pinned"); they differ in three places, marked     *)
 (* [D10], [D11a], [D11b].                                                    *)
@@ -33,7 +34,7 @@ vars == <<pc, cfg, group, eff, isShift, hasSym, map, ir, weights>>
 (*   level  "grid"  (a direct GridPoints(...) call) | "api" (Phonopy.init_mesh) *)
 (*   len    TRUE when the mesh was given as a length; then `mesh` holds      *)
 (*          rint(|a*_k| * length), the real-valued primitive evaluated by    *)
-(*          the harness, and gamma-centring is forced                        *)
+(*          the harness; at the "api" level gamma-centring is then forced    *)
 (*   mesh, sn, sd, gamma, tr, sym                                            *)
 (*   grp    name of the real-space point group handed over (GroupTable)      *)
 
@@ -69,9 +70,9 @@ IsGroup(H) ==
   /\ \A a \in H : Abs(Det(a)) = 1 /\ UniInv(a) \in H
   /\ \A a, b \in H : MatMul(a, b) \in H
 
-(* every entry of the table is a group (checked once per run as an ASSUME of the MC     *)
-(* module); {R^-T} and its extension by -1 are then groups too, so classes are orbits   *)
-TableOK == \A g \in DOMAIN GroupTable : IsGroup(GroupTable[g])
+(* Every entry of the group table is checked to be a group once per run (an ASSUME of   *)
+(* the generated MC module); {R^-T} and its extension by -1 are then groups too, so the *)
+(* classes of a reduction are orbits.                                                   *)
 
 (* reciprocal axes i, j are exchanged (up to sign) by some operation *)
 AxisEquiv(rots, i, j) ==
